@@ -43,8 +43,12 @@ def base_pkg(draw, types, min_fields=2, max_fields=5, hard=True):
     n_targets = draw(st.integers(1, 2))
     pkg = []
     for i in range(n_targets):
-        rows = draw(gen.rows_for(flds, 0, 5, hard=hard))
-        pkg.append({'name': 'res%d' % (i + 1), 'fields': copy.deepcopy(flds), 'rows': rows})
+        f_i = flds
+        if i == 1 and draw(st.integers(0, 2)) == 0:
+            # the second target has fields of its own (other names may match the same patterns)
+            f_i = draw(gen.fields(min_fields, max_fields, names=gen.FIELD_NAMES, types=types))
+        rows = draw(gen.rows_for(f_i, 0, 5, hard=hard))
+        pkg.append({'name': 'res%d' % (i + 1), 'fields': copy.deepcopy(f_i), 'rows': rows})
     targets = [r['name'] for r in pkg]
     if draw(st.booleans()):
         by = draw(gen.resource('other', max_fields=3, max_rows=3, names=['a', 'b', 'ab', 'x1', 'q']))
@@ -238,6 +242,10 @@ def case_find_replace(draw):
     for n in chosen:
         pats = draw(st.lists(st.sampled_from(FIND_POOL), min_size=1, max_size=3))
         specs.append({'name': n, 'patterns': [{'find': f, 'replace': r} for f, r in pats]})
+    if draw(st.integers(0, 3)) == 0:
+        # the same field named by two entries of the list: both entries' patterns apply, in order
+        pats = draw(st.lists(st.sampled_from(FIND_POOL), min_size=1, max_size=2))
+        specs.append({'name': chosen[0], 'patterns': [{'find': f, 'replace': r} for f, r in pats]})
     return {'op': 'find_replace', 'pkg': pkg, 'targets': targets, 'sel': sel, 'specs': specs}
 
 
@@ -521,6 +529,15 @@ def check(case, ctx):
         if op == 'add_field' and case['name'] in types_out and types_out[case['name']] != case['type']:
             raise Violation('add_field:declared-type-lost', {'got': types_out[case['name']]})
         if op == 'computed':
+            # the average of decimal values is computed in decimals (a binary float would be another number)
+            for spec in case['specs']:
+                if spec['operation'] == 'avg':
+                    tn = spec['target'] if isinstance(spec['target'], str) else spec['target']['name']
+                    for src_row, out_row in zip(r['rows'], out_rows[i]):
+                        vals = [src_row.get(s_) for s_ in spec['source'] if src_row.get(s_) is not None]
+                        if vals and any(isinstance(v, decimal.Decimal) for v in vals) and isinstance(out_row.get(tn), float):
+                            raise Violation('computed:avg-of-decimals-computed-in-binary-floats',
+                                            {'sources': vals, 'got': out_row.get(tn)})
             # schema and rows in lockstep also means: the declared type of a computed field accepts its values
             import tableschema
             for fd in out_desc['resources'][i]['schema']['fields']:
